@@ -61,3 +61,17 @@ package reflectx
 //@ pure
 //@ assigns nothing
 //@ ensures [settable] result == RCanSet(field)
+
+// ---- SetValue (C11 frame, C17 path): decode into a fresh value, then store it into the destination -------------------
+// The setter (A-CALLBACK / A-LIB: mapstructure) fills the fresh value it is given; it does not write older memory.
+//@ func SetValue#setter
+//@ assigns RMem, RTop
+//@ ensures [only-fresh-memory] RTop >= old(RTop) && forall(l, int, implies(l <= old(RTop), RMem[l] == old(RMem[l])))
+
+//@ func SetValue
+//@ property C11
+//@ requires [destination] RCanSet(value) && RTypeOf(value) != nil && implies(RTypeOf(value).Kind() == 22, RTypeOf(value).Elem() != nil)
+//@ requires [setter] setter != nil
+//@ assigns RMem, RTop
+//@ ensures [only-destination-written] RTop >= old(RTop) && forall(l, int, implies(l <= old(RTop) && l != RLoc(value), RMem[l] == old(RMem[l])))
+//@ ensures [failed-setter-writes-nothing] implies(result != nil, forall(l, int, implies(l <= old(RTop), RMem[l] == old(RMem[l]))))
